@@ -204,7 +204,7 @@ func names(es []fs.DirEntry) string {
 // run executes c through x. A File.* call opens the operand with c.Flag first;
 // a refused open is reported as "open:<kind>".
 func run(x xfs, c callT, a opArgs) fsx.Res {
-	perm := fsx.UnixMode(c.Perm)
+	perm := fsx.UnixMode(uint32(c.Perm))
 
 	switch c.Op {
 	case "Mkdir":
